@@ -229,7 +229,7 @@ BAD_VALUES = ["True", "TRUE", "yes", "", " ", "abc", "-1", "70000", "1 2", "2026
 
 MUT_KINDS = ["drop_attr", "add_plain_attr", "add_foreign_attr", "add_xml_attr", "swap_kids", "dup_kid", "drop_kid",
              "rename_same_ns", "rename_foreign", "insert_foreign", "insert_known", "bad_attr_value", "text_in_parent",
-             "dup_id", "rename_root", "xsi_type", "xsi_nil", "set_leaf_text", "whitespace", "drop_all_kids", "move_kid_last"]
+             "dup_id", "rename_root", "xsi_type", "xsi_nil", "set_leaf_text", "whitespace", "drop_all_kids", "move_kid_last", "abstract_kid"]
 
 
 def _only_wildcard(n):
@@ -362,6 +362,18 @@ def mutate(tree, mut):
         n, _ = pick(lambda n, p: not n[4] and not _only_wildcard(n))
         if n:
             n[3] = rng.choice(BAD_VALUES)
+    elif kind == "abstract_kid":
+        # an element of an abstract type (saml:Condition, md:RoleDescriptor), with and without an xsi:type that makes it concrete
+        n, _ = pick(lambda n, p: (n[0], n[1]) in ((SAML, "Conditions"), (MD, "EntityDescriptor")))
+        if n and n[1] == "Conditions":
+            ty = rng.choice([None, "{%s}OneTimeUseType" % SAML, "{%s}AudienceRestrictionType" % SAML, "{%s}NameIDType" % SAML, "{%s}ConditionAbstractType" % SAML])
+            n[4].insert(rng.randrange(len(n[4]) + 1), [SAML, "Condition", [[XSI, "type", ty]] if ty else [], "", []])
+        elif n:
+            ty = rng.choice([None, "{%s}SPSSODescriptorType" % MD, "{%s}RoleDescriptorType" % MD, "{%s}SSODescriptorType" % MD])
+            pos = next((i for i, k in enumerate(n[4]) if k[1].endswith("Descriptor")), len(n[4]))
+            n[4].insert(pos, [MD, "RoleDescriptor", [["", "protocolSupportEnumeration", SAMLP]] + ([[XSI, "type", ty]] if ty else []), "", []])
+        else:
+            t[4].append([SAML, "Condition", [], "", []])
     elif kind == "whitespace":
         for n, p in nodes:
             if n[4] and rng.random() < 0.5:
@@ -530,6 +542,8 @@ def g_common(rng):
                 cp["telephone_number"] = ["+1 555 0100"]
             for k in rng.sample(["given_name", "sur_name", "company", "email_address"], rng.randint(0, 3)):
                 cp.pop(k)
+            if rng.random() < 0.3:  # the key names of the documentation's example
+                cp = {"givenname": "Derek", "surname": "Jeter", "company": "Example Co.", "mail": ["jeter@example.com"], "type": "technical"}
             cps.append(cp)
         top["contact_person"] = cps
     if rng.random() < 0.3:
@@ -646,6 +660,10 @@ def g_md_cfg(rng):
                 aa["endpoints"]["assertion_id_request_service"] = [["https://idp.verif.example/aa/airs", "urn:oasis:names:tc:SAML:2.0:bindings:URI"]]
             if rng.random() < 0.4:
                 aa["name_id_format"] = rng.sample(NAMEID_FORMATS, rng.randint(1, 2))
+            if rng.random() < 0.25:
+                aa["attribute"] = rng.sample(["urn:oid:2.5.4.42", "urn:oid:2.5.4.4", "urn:oid:0.9.2342.19200300.100.1.3"], rng.randint(1, 2))
+            if rng.random() < 0.25:
+                aa["attribute_profile"] = ["urn:oasis:names:tc:SAML:2.0:profiles:attribute:basic"]
             service["aa"] = aa
         elif r == "aq":
             service["aq"] = {"endpoints": {"authn_query_service": [["https://idp.verif.example/aq", S.BINDING_SOAP]]}}
@@ -791,7 +809,23 @@ def ga_authn_request(rng, cfg):
         a["requested_attributes"] = [{"friendly_name": "mail", "required": rng.choice([True, False])}, {"name": "urn:oid:2.5.4.42"}][: rng.randint(1, 2)]
     if rng.random() < 0.1:
         a["nsprefix"] = {"saml": SAML, "samlp": SAMLP}
+    if rng.random() < 0.15:
+        a["extensions"] = rng.choice(["sptype", "foreign", "both"])
     return a
+
+
+def mk_extensions(kind):
+    """A non-empty samlp:Extensions element supplied by the caller."""
+    import saml2
+    from saml2 import samlp
+    from saml2.extension import sp_type
+
+    ext = samlp.Extensions()
+    if kind in ("sptype", "both"):
+        ext.add_extension_element(sp_type.SPType(text="public"))
+    if kind in ("foreign", "both"):
+        ext.extension_elements.append(saml2.ExtensionElement("Hint", namespace="urn:x-verif:ext", attributes={"level": "1"}, text="h"))
+    return ext
 
 
 def mk_scoping(d):
@@ -838,7 +872,7 @@ def mk_rac(d):
 def call_authn_request(sp, a):
     kw = dict(a)
     dest = kw.pop("destination")
-    for k, f in (("scoping", mk_scoping), ("subject", mk_subject), ("conditions", mk_conditions)):
+    for k, f in (("scoping", mk_scoping), ("subject", mk_subject), ("conditions", mk_conditions), ("extensions", mk_extensions)):
         if k in kw:
             kw[k] = f(kw[k])
     return sp.create_authn_request(dest, **kw)[1]
@@ -861,11 +895,15 @@ def ga_logout_request(rng, cfg):
         a["message_id"] = g_ncname(rng)
     if rng.random() < 0.15:
         a["consent"] = True
+    if rng.random() < 0.15:
+        a["extensions"] = rng.choice(["foreign", "both"])
     return a
 
 
 def call_logout_request(ent, a):
     kw = dict(a)
+    if "extensions" in kw:
+        kw["extensions"] = mk_extensions(kw["extensions"])
     if "name_id" in kw:
         kw["name_id"] = mk_nameid(kw["name_id"])
     if ent.entity_type == "idp":
@@ -1623,6 +1661,7 @@ K_ACTION_NS = "C13/authz-query-using-assertion-action-without-namespace"
 K_PEFIM = "C13/pefim-unencrypted-advice-assertion-without-issuer"
 K_NIL_VI = "C13/valid-instance-crashes-on-empty-attribute-value"
 K_BOOL = "C13/authn-request-allow-create-bool-unserialisable"
+K_AA = "C13/aa-descriptor-attribute-options-emit-invalid-elements"
 
 
 def _has_attr(n, local):
@@ -1677,7 +1716,27 @@ def _repair_pefim(case, t):
     return t
 
 
-REPAIRS = [(K_DUP_ID, _repair_dup_id), (K_EIDAS_NF, _repair_eidas_nf), (K_ACTION_NS, _repair_action_ns), (K_PEFIM, _repair_pefim)]
+def _repair_aa(case, t):
+    if case["cfg"].get("role") != "md" or not any(k in case["cfg"]["service"].get("aa", {}) for k in ("attribute", "attribute_profile")):
+        return None
+    done = False
+    for n, _ in all_nodes(t):
+        if n[0] == MD and n[1] == "AttributeAuthorityDescriptor":
+            for k in n[4]:
+                if k[0] == SAML and k[1] == "Attribute" and not _has_attr(k, "Name"):
+                    k[2].append(["", "Name", k[3]])
+                    k[3] = ""
+                    done = True
+            attrs = [k for k in n[4] if k[0] == SAML and k[1] == "Attribute"]
+            profs = [k for k in n[4] if k[0] == MD and k[1] == "AttributeProfile"]
+            rest = [k for k in n[4] if k not in attrs and k not in profs]
+            if n[4] != rest + profs + attrs:
+                n[4][:] = rest + profs + attrs
+                done = True
+    return t if done else None
+
+
+REPAIRS = [(K_AA, _repair_aa), (K_DUP_ID, _repair_dup_id), (K_EIDAS_NF, _repair_eidas_nf), (K_ACTION_NS, _repair_action_ns), (K_PEFIM, _repair_pefim)]
 
 
 def _empty_typed_value(t):
